@@ -22,7 +22,8 @@ CONSTANTS Conns,        \* connection names
 
 MatchTable == { <<"a*", "a">>, <<"a*", "ab">>,
                 <<"*", "a">>, <<"*", "ab">>, <<"*", "b">>, <<"*", "bc">>,
-                <<"b?", "bc">> }
+                <<"b?", "bc">>,
+                <<"ab", "ab">> }      \* a pattern without wildcard: it matches the channel of the same name only
 Match(p, ch) == <<p, ch>> \in MatchTable
 
 VARIABLES subs, alive, gen, nops, log
